@@ -390,7 +390,7 @@ impl Model for StakeAdmin {
             }
         };
         if v.is_empty() {
-            admin_hooks_agree(&cfg.hooks, &r, &obs, &mut v);
+            admin_hooks_agree(&self.cfg.hooks, &r, &obs, &mut v);
         }
         let dead = !v.is_empty();
         (State { w, r, obs: Arc::new(obs), dead }, v)
@@ -496,7 +496,7 @@ impl Model for StakeAdmin {
                     SAct::RemoveHook { hook, .. } => r.hooks.retain(|h| h != hook),
                     _ => {}
                 }
-                admin_hooks_agree(&cfg.hooks, &r, &obs, &mut v);
+                admin_hooks_agree(&self.cfg.hooks, &r, &obs, &mut v);
             }
             let msgs = out.top.as_ref().map(|t| t.messages.clone()).unwrap_or_default();
             let listed: BTreeSet<String> = match act {
